@@ -144,9 +144,50 @@ def run(ctx, ck) -> None:
                 raw.append(atom_facts(ex, pol, {}))
     len_sum = ('call', ('var', 'len'), (('var', sum_name),), ())
     len_tr = ('call', ('var', 'len'), (('var', tr_name),), ())
-    one_sum = any(('ne', frozenset({len_sum, ('const', '1')})) in fs for fs in raw)
-    none_t = any(('eq', frozenset({len_tr, ('const', '0')})) in fs or ('lt', len_tr, ('const', '1')) in fs for fs in raw)
-    many_t = any(('lt', ('const', '1'), len_tr) in fs or ('le', ('const', '2'), len_tr) in fs for fs in raw)
+    # decided on the returning paths: the facts known there must leave 1 as the only possible size of each set
+    from ..terms import facts as _path_facts
+
+    def sizes(fs, set_name, len_t):
+        cands = set(range(0, 5))
+        for f in fs:
+            for n in list(cands):
+                env = {len_t: n}
+                ok = True
+                if f[0] in ('eq', 'ne') and len_t in f[1] and len(f[1]) == 2:
+                    other = next(x for x in f[1] if x != len_t)
+                    if other[0] == 'const' and other[1].lstrip('-').isdigit():
+                        ok = (n == int(other[1])) == (f[0] == 'eq')
+                elif f[0] in ('lt', 'le') and len_t in (f[1], f[2]):
+                    a, b = f[1], f[2]
+                    av = n if a == len_t else (int(a[1]) if a[0] == 'const' and a[1].lstrip('-').isdigit() else None)
+                    bv = n if b == len_t else (int(b[1]) if b[0] == 'const' and b[1].lstrip('-').isdigit() else None)
+                    if av is not None and bv is not None:
+                        ok = av < bv if f[0] == 'lt' else av <= bv
+                elif f[0] == 'truth' and f[1] == ('var', set_name):
+                    ok = (n > 0) == f[2]
+                if not ok:
+                    cands.discard(n)
+        return cands
+
+    ret_paths = [p for p in function_paths(rew) if p.exit == 'return']
+    sum_sizes: set = set()
+    tr_sizes: set = set()
+    for p in ret_paths:
+        fs = _path_facts(p)
+        e = path_env(p)
+
+        def both(name, len_t):
+            # the set may appear under its name or as the expression it was computed from
+            alt = ('call', ('var', 'len'), (e.get(name, ('var', name)),), ())
+            return sizes(fs, name, len_t) & sizes({(f[0], frozenset(len_t if x == alt else x for x in f[1])) if f[0] in ('eq', 'ne') else
+                                                   ((f[0], len_t if f[1] == alt else f[1], len_t if f[2] == alt else f[2]) if f[0] in ('lt', 'le') else
+                                                    (('truth', ('var', name), f[2]) if f[0] == 'truth' and f[1] == e.get(name) else f)) for f in fs}, name, len_t)
+
+        sum_sizes |= both(sum_name, len_sum) if sum_name else set(range(5))
+        tr_sizes |= both(tr_name, len_tr) if tr_name else set(range(5))
+    one_sum = bool(ret_paths) and sum_sizes == {1}
+    none_t = bool(ret_paths) and 0 not in tr_sizes
+    many_t = bool(ret_paths) and all(n <= 1 for n in tr_sizes)
     ck.expect('E3', one_sum, rew, 'contraction count != 1 is refused', 'subscripts without exactly one contracted axis are no longer refused', instance='one contracted axis')
     ck.expect('E3', none_t, rew, 'no free block axis is refused', 'subscripts without a free block axis are no longer refused', instance='free axis present')
     ck.expect('E3', many_t, rew, 'several free block axes are refused', 'subscripts with several free block axes are no longer refused', instance='single free axis')
